@@ -17,6 +17,7 @@ import (
 
 func TestVerifC17IPSet(t *testing.T) {
 	defer vfstat.Flush()
+	vfstat.Quiet()
 	const U = "C17.ipset"
 	rapid.Check(t, func(rt *rapid.T) {
 		cidrs, parsed := vfgen.GenCIDRList(rt, 24)
